@@ -16,7 +16,7 @@ T == Traces[tid]
 E == T.ev[l]
 
 TInit == /\ tid \in 1..Len(Traces) /\ l = 1
-         /\ InitWith([n |-> Traces[tid].cfg.n, stale |-> Traces[tid].cfg.stale, mortal |-> Traces[tid].cfg.mortal])
+         /\ InitWith([n |-> Traces[tid].cfg.n, stale |-> Traces[tid].cfg.stale, mortal |-> Traces[tid].cfg.mortal, parent |-> Traces[tid].cfg.parent])
 
 Matches == last'.e = E.e /\ last'.p = E.p /\ last'.res = E.res /\ last'.v = E.v
 
